@@ -1,5 +1,6 @@
 \* core level, spec -> code (thorough)
 CONSTANTS
+  UseDb = TRUE
   Cores <- CoresQuick
   Designs <- NoTriples
   Growths <- G3
@@ -8,6 +9,8 @@ CONSTANTS
   BreakStep = 1
   FromInput <- FromNone
   ExplicitTargets = FALSE
+  Replacements <- NoRepl
+  Edits <- NoEdits
   Refusals = FALSE
   ZeroHeightRefused = TRUE
   AlignTarget = FALSE
